@@ -81,6 +81,13 @@ def random_install(rng, gen, n_acs=None, n_zones=None, fmt=None):
         for z in numbers:
             blocks[rng.randrange(n_acs)].append(z)
     zones = {z: (rng.choice(NAMES)[:6] + (str(z) if rng.random() < 0.5 else ""))[:8] for z in numbers}
+    for z in numbers:
+        # legal on the wire and seen on real consoles: a zone whose name was never set (blank), or one character
+        r = rng.random()
+        if r < 0.06:
+            zones[z] = ""
+        elif r < 0.10:
+            zones[z] = rng.choice(["1", " ", "Z"])
     acs = []
     for i, b in zip(ids, blocks):
         start, count = (min(b) if b else (rng.choice(numbers) if numbers and rng.random() < 0.5 else 0)), len(b)
